@@ -125,5 +125,9 @@ Proof.
   all: ucase; simp; rewrite ?Pg in *; cbn [holds2 orb] in *;
        repeat match goal with H : pc _ _ = _ |- _ => rewrite H in * end; cbn [holds2 orb] in *;
        try tauto; try (intuition congruence).
+  all: rewrite ?Nat.eqb_refl, ?orb_true_r in *; cbn [orb] in *;
+       repeat match goal with H : context [match mux ?x with _ => _ end] |- _ => destruct (mux x) eqn:? end;
+       ucase; unfold thNew in *; cbn [mux] in *; rewrite ?Nat.eqb_refl, ?orb_true_r in *; cbn [orb] in *;
+       try (intuition congruence).
   Show Existentials.
 Abort.
